@@ -226,10 +226,23 @@ def rule_main_gate(ctx: Ctx, repo: Repo) -> None:
     ctx.check(len(resets) == 1 and isinstance(resets[0][3], R) and resets[0][3].kind == "list" and not resets[0][3].fields["items"],
               "R-C17.2", flush.fq, "flush resets the pending batch to an empty list", construct=f"{resets}")
     # nothing else in the class writes self.traces
+    def only_called_from(m_: Any, roots: Tuple[str, ...], seen: Optional[set] = None) -> bool:
+        """m_ is one of the root methods, or a helper every caller of which (within the class) is"""
+        seen = seen or set()
+        short = m_.qualname.split(".")[-1]
+        if short in roots:
+            return True
+        if short in seen:
+            return False
+        seen.add(short)
+        callers = [g_ for g_ in ci.methods.values() if g_ is not m_ and any(
+            isinstance(c_, ast.Call) and isinstance(c_.func, ast.Attribute) and c_.func.attr == short and dotted(c_.func.value) == "self" for c_ in ast.walk(g_.node))]
+        return bool(callers) and all(only_called_from(g_, roots, seen) for g_ in callers)
+
     for m in ci.methods.values():
         for x in walk_no_nested(m.node):
             if isinstance(x, ast.Assign) and any(dotted(t) == "self.traces" for t in x.targets):
-                ctx.check(m.qualname.split(".")[-1] in ("__init__", "flush"), "R-C17.2", m.fq,
+                ctx.check(only_called_from(m, ("__init__", "flush")), "R-C17.2", m.fq,
                           "the pending batch is rebound only by __init__ and flush", construct=norm(x), node=x)
 
 
